@@ -785,7 +785,14 @@ contract(M + ':Cell.schedule',
                   # C03: assignments of this cycle, and the standing clause
                   ('C03', 'forall(lambda n: implies(n in self.apps and self.apps[n].server is not None and '
                           '  self.apps[n].server != old(self.apps[n].server), assigned_ok(self.apps[n], MEMBERS)), "Name")'),
-                  ('C03', 'standing_ok(self, MEMBERS)')],
+                  ('C03', 'standing_ok(self, MEMBERS)'),
+                  # what the publisher (Master.reschedule / init_schedule, C09) is told: one record per listed instance -
+                  # (name, server and expiry when the cycle started, server and expiry now)
+                  ('C01', 'len(result) == len(AA) and forall(lambda j: implies(0 <= j and j < len(result), '
+                          '  result[j][0] == AA[j].name and result[j][1] == old(AA[j].server) and '
+                          '  result[j][2] == old(AA[j].placement_expiry) and result[j][3] == AA[j].server and '
+                          '  result[j][4] == AA[j].placement_expiry), "Int")', 'returns_before_after')],
+         ghost_out={'AA': ('List[Application]', 'all_apps')},
          modifies=FIND_MODIFIES + [('Application.final_rank', 'lambda a: True'),
                                    ('Application.final_util', 'lambda a: True'),
                                    ('Allocation.label', 'lambda a: True'), 'self.next_event_at'],
